@@ -618,9 +618,51 @@ impl<'a> Ev<'a> {
 
     pub fn eval_block(&mut self, b: &syn::Block) -> R<Val> {
         self.scopes.push(HashMap::new());
+        let r = self.eval_stmts(&b.stmts);
+        self.scopes.pop();
+        r
+    }
+
+    /// `if c { …; return e; }` followed by the rest of the block  ==  `if c { …; e } else { rest }`
+    fn early_return<'b>(s: &'b Stmt) -> Option<(&'b Expr, &'b [Stmt], &'b Expr)> {
+        let e = match s {
+            Stmt::Expr(e, _) => e,
+            _ => return None,
+        };
+        if let Expr::If(i) = e {
+            if i.else_branch.is_none() {
+                if let Some(Stmt::Expr(Expr::Return(r), _)) = i.then_branch.stmts.last() {
+                    if let Some(rv) = &r.expr {
+                        let n = i.then_branch.stmts.len();
+                        return Some((&i.cond, &i.then_branch.stmts[..n - 1], rv));
+                    }
+                }
+            }
+        }
+        None
+    }
+
+    fn eval_stmts(&mut self, stmts: &[Stmt]) -> R<Val> {
         let mut last = Val::Unit;
-        let n = b.stmts.len();
-        for (i, s) in b.stmts.iter().enumerate() {
+        let n = stmts.len();
+        for (i, s) in stmts.iter().enumerate() {
+            if let Some((cond, pre, rv)) = Self::early_return(s) {
+                let c = match strip_ref(self.eval(cond)?) {
+                    Val::Bool(c) => c,
+                    _ => return Err("non-bool condition".into()),
+                };
+                let c = self.fresh(c, "bool");
+                self.depth_branch += 1;
+                self.scopes.push(HashMap::new());
+                self.eval_stmts(pre)?;
+                let a = self.eval(rv)?;
+                self.scopes.pop();
+                self.scopes.push(HashMap::new());
+                let b = self.eval_stmts(&stmts[i + 1..])?;
+                self.scopes.pop();
+                self.depth_branch -= 1;
+                return self.merge(&c, a, b);
+            }
             match s {
                 Stmt::Local(l) => {
                     let init = l.init.as_ref().ok_or("let without init")?;
@@ -635,6 +677,11 @@ impl<'a> Ev<'a> {
                     if let Expr::Verbatim(_) = e {
                         continue;
                     }
+                    if let (Expr::Return(r), true) = (e, i == n - 1) {
+                        if let Some(rv) = &r.expr {
+                            return self.eval(rv);
+                        }
+                    }
                     let v = self.eval(e)?;
                     if semi.is_none() && i == n - 1 {
                         last = v;
@@ -648,7 +695,6 @@ impl<'a> Ev<'a> {
                 }
             }
         }
-        self.scopes.pop();
         Ok(last)
     }
 
